@@ -77,7 +77,9 @@ def valid_cmds(use, s):
         return [{"op": "value_create", "v": "t", "kind": 3}, {"op": "value_op", "v": "t", "f": "set_key", "key": s}], 1
 
 
-CURATED = ["\ufb03", "ffi", "FFI", "\ufb04", "ffl", "\u00df\u00df", "ssss", "SSSS", "\u1e9e\u00df", "stra\u00dfe\u00df", "STRASSESS", "\u0390\u0390", "a", "A", "é", "É", "É", "ß", "SS", "ss", "ẞ", "İ", "i̇", "I", "ı", "σ", "ς", "Σ", "ͅ", "ι", "ᾳ", "ᾼ", "αι", "ǰ", "ǰ", "ﬁ", "fi", "FI",
+CURATED = [# characters excluded from composition: the canonical form is longer than the spelling (by one unit, by two)
+           "\u0958", "\u0915\u093c", "k\u0958", "x\u0344", "x\u0308\u0301", "\ufb1d", "\u05d9\u05b4", "\u2adc", "\u0f43", "abcdefghijklmnopqrstuvwxyz\u0958abcdefghijklmnopqrstuvw", "\u0958\u0958",
+           "\ufb03", "ffi", "FFI", "\ufb04", "ffl", "\u00df\u00df", "ssss", "SSSS", "\u1e9e\u00df", "stra\u00dfe\u00df", "STRASSESS", "\u0390\u0390", "a", "A", "é", "É", "É", "ß", "SS", "ss", "ẞ", "İ", "i̇", "I", "ı", "σ", "ς", "Σ", "ͅ", "ι", "ᾳ", "ᾼ", "αι", "ǰ", "ǰ", "ﬁ", "fi", "FI",
            "가", "가", "각", "각", "Å", "Å", "Å", "Ω", "Ω", "q̣̇", "q̣̇", "ạ̈", "ạ̈", "ǆ", "ǅ", "Ǆ", "ŉ", "ʼn", "ΐ", "ΐ", "և", "ԵՒ", "ꭰ", "Ꭰ", "x", "y", "k", "K", "ﬀ", "ff", "㎑", "kHz", "①", "1"]
 
 
